@@ -603,6 +603,40 @@ def check_bad_histogram_configs(run, vsim, d):
         os.remove(sc)
 
 
+def check_hist_state_other_grid(run, vsim, d):
+    """a histogram state (raw counts, no grid parameters) loaded by a job whose grid legally differs: more or fewer bins must be
+    an error; the same number of bins on other boundaries cannot be noticed by the reader (recorded finding)"""
+    def cfg(lo, up, w):
+        return ["config END", "colvar {", "  name v0", "  lowerBoundary %r" % lo, "  upperBoundary %r" % up, "  width %r" % w,
+                "  distanceZ {", "    main { atomNumbers 1 }", "    ref { dummyAtom (0,0,0) }", "    axis (0,0,1)", "  }", "}",
+                "histogram {", "  name h", "  colvars v0", "}", "END"]
+    for name, (lo, up, w) in (("more", (0.0, 6.0, 1.0)), ("fewer", (0.0, 3.0, 1.0)), ("shifted", (1.0, 5.0, 1.0))):
+        L = ["natoms 1", "new"] + cfg(0.0, 4.0, 1.0) + ["show atomf 0 energy 0 bias 0 cv 0"]
+        for z in [0.5, 1.5, 1.5, 3.5, 2.5]:
+            L += ["pos 1 0 0 %r" % z, "step"]
+        L += ["save text og_%s.state" % name, "fresh"] + cfg(lo, up, w) + ["load og_%s.state" % name, "save text og2_%s.state" % name]
+        scn = "\n".join(L) + "\n"
+        sc = os.path.join(d, "og_%s.scn" % name)
+        open(sc, "w").write(scn)
+        rc, o, e = V.sh([vsim, sc], cwd=d, timeout=60)
+        run.count("hist-state-other-grid-" + name, True)
+        run.dist("hist:state-other-grid")
+        load = [l for l in o.split("\n") if l.startswith("LOAD")]
+        if name in ("more", "fewer"):
+            if rc != 0 or not load or "err=ok" in load[0]:
+                run.violation("hist:state-other-grid:" + name, "a histogram state of 4 bins loaded by a histogram of %s bins is accepted (%s)" % (
+                    "6" if name == "more" else "3", load), {"kind": "hist", "scenario": scn})
+        else:
+            got = parse_hist_state(os.path.join(d, "og2_shifted.state"))
+            # samples 0.5 1.5 1.5 3.5 2.5 at steps 0..4 (step 0 not eligible): on [1,5) the counts would be 2 1 1 0
+            if rc != 0 or (load and "err=ok" in load[0] and got != [2.0, 1.0, 1.0, 0.0]):
+                run.violation("hist:state-into-shifted-grid", "a histogram accumulated on [0,4) (counts 0 2 1 1) and loaded by a job configured on [1,5) continues with %s: "
+                              "the counts are attributed to bins that do not contain the samples (on [1,5) they are 2 1 1 0)" % got, {"kind": "hist", "scenario": scn})
+        for f in glob.glob(os.path.join(d, "og*_%s.*" % name)) + [sc]:
+            if os.path.exists(f):
+                os.remove(f)
+
+
 def check_vector_histogram(run, vsim, d):
     """vector variables gathered into one histogram (gatherVectorColvars, weights): the documented configuration"""
     sc = os.path.join(d, "vec.scn")
@@ -628,13 +662,13 @@ def check_vector_histogram(run, vsim, d):
 
 
 def gen_vec_hist(r, k):
-    nvar = r.choice([1, 1, 2])
-    m = r.choice([1, 2])                      # atoms per variable: 3m components
+    nvar = r.choice([1, 1, 2, 3])
+    m = r.choice([1, 2, 3])                   # atoms per variable: 3m components
     size = 3 * m
     vs = []
     for d in range(nvar):
         w = r.choice([1.0, 0.5, 0.25, 2.0])
-        vs.append({"lower": V.dyadic(r, -3, 3, bits=2), "w": w, "nx": r.randint(1, 6)})
+        vs.append({"lower": V.dyadic(r, -3, 3, bits=2), "w": w, "nx": r.randint(1, 6 if nvar < 3 else 4)})
     for v in vs:
         v["upper"] = v["lower"] + v["w"] * v["nx"]
     wmode = r.random()
@@ -863,6 +897,7 @@ def check(run):
                 os.remove(f)
     check_meta_states(run, V.rng("C15meta"), vsim, d, 9 if quick else 90)
     check_bad_histogram_configs(run, vsim, d)
+    check_hist_state_other_grid(run, vsim, d)
     if check_vector_histogram(run, vsim, d):
         check_vector_scenarios(run, V.rng("C15vec"), vsim, model, d, 30 if quick else 400)
     run.cov["correspondence"].update({"unit_cases": len(cases), "hist_scenarios": len(hcases)})
